@@ -292,7 +292,24 @@ def run(chk, prog):
              'stale parked copy would overwrite the live flow in every later save.')
     from rules.c10 import check_load_parks_no_current_flow
     check_load_parks_no_current_flow(chk, prog, tr, RF_)
+    from rules.c10 import check_load_replaces_parked_flows
+    check_load_replaces_parked_flows(chk, prog, tr, RF_)
     key_field_pairing(chk, prog, tr)
+    # ---- the writer reads the committed maps, so no look-ahead patch may outlive its look-ahead
+    RG_ = 'C02.no-patch-outlives-its-look-ahead'
+    chk.rule(RG_, 'StoryState::write_json and VariablesState::write_json serialise visit_counts, turn_indices and '
+             'global_variables directly; while a look-ahead patch is live, changes made after the tentative line end are '
+             'only in the patch. Every way a look-ahead ends (discard_snapshot, restore_state_snapshot) therefore applies '
+             'the patch on every path (except under async_saving): otherwise a save taken afterwards silently drops '
+             'those changes (same clause as C01.commit-or-rewind-applies-patch).')
+    from rules.c01 import applies_patch_unless_saving
+    for name in ('Story::discard_snapshot', 'Story::restore_state_snapshot'):
+        f_ = prog.fn(name)
+        if chk.anchor(RG_, name, f_):
+            ok_, _ap = applies_patch_unless_saving(prog, tr, f_)
+            chk.decide(RG_, chk.key(RG_, name), ok_, 'the patch is applied on every path',
+                       '%s can return without applying the look-ahead patch: the changes stay in the patch, which the save '
+                       'writers do not read' % name, f_.loc(0))
 
 
 
